@@ -254,6 +254,7 @@ func Array[V any](arguments ...any) col.ArrayLike[V] {
 	// Initialize the possible arguments.
 	var notation = CDCN()
 	var size uint
+	var hasSize bool
 	var values []V
 	var sequence col.Sequential[V]
 	var source string
@@ -263,8 +264,10 @@ func Array[V any](arguments ...any) col.ArrayLike[V] {
 		switch actual := argument.(type) {
 		case int:
 			size = uint(actual)
+			hasSize = true
 		case uint:
 			size = actual
+			hasSize = true
 		case []V:
 			values = actual
 		case string:
@@ -292,9 +295,9 @@ func Array[V any](arguments ...any) col.ArrayLike[V] {
 	var class = col.Array[V](notation)
 	var array col.ArrayLike[V]
 	switch {
-	case size > 0:
+	case hasSize:
 		array = class.Make(size)
-	case len(values) > 0:
+	case values != nil:
 		array = class.MakeFromArray(values)
 	case sequence != nil:
 		array = class.MakeFromSequence(sequence)
